@@ -22,6 +22,8 @@ pub struct LoopDir {
     pub iter_name: Option<String>,
     /// R14 (opt-in, `//@ loop N index-mut`): `for x in &mut a { .. }` -> `for vx_i in 0..a.len() { let x = &mut a[vx_i]; .. }`
     pub index_mut: bool,
+    /// R18 (opt-in, `//@ loop N filter-range`): `for i in (a..b).filter(|x| P) { B }` -> `for i in (a..b) { let vx_keep: bool = { let x = &i; P }; if vx_keep { B } }`
+    pub filter_range: bool,
     pub lines: Vec<String>,
 }
 
@@ -191,6 +193,8 @@ fn parse_fn_block(name_line: &str, lines: &[(bool, String)]) -> FnDirective {
                         ld.iter_name = Some(v.to_string());
                     } else if o == "index-mut" {
                         ld.index_mut = true;
+                    } else if o == "filter-range" {
+                        ld.filter_range = true;
                     }
                 }
                 curfn!().loops.insert(n, ld);
